@@ -8,9 +8,13 @@ pub const ALL: &[(&str, H)] = &[
     ("h_arch::configure_nr_pow2range_any", crate::h_arch::configure_nr_pow2range_any),
     ("h_arch::pow2range_configure_column_count", crate::h_arch::pow2range_configure_column_count),
     ("h_arch::arch_read_total", crate::h_arch::arch_read_total),
-    ("h_batch::batch_verify_lengths", crate::h_batch::batch_verify_lengths),
-    ("h_batch::batch_verify_lengths_nonempty", crate::h_batch::batch_verify_lengths_nonempty),
+    ("h_batch::batch_verify_no_keys", crate::h_batch::batch_verify_no_keys),
+    ("h_batch::batch_verify_one_key", crate::h_batch::batch_verify_one_key),
+    ("h_batch::batch_verify_two_keys", crate::h_batch::batch_verify_two_keys),
     ("h_batch::verify_pins_public_input_count", crate::h_batch::verify_pins_public_input_count),
+    ("h_zkir::into_bytes_offcircuit_native", crate::h_zkir::into_bytes_offcircuit_native),
+    ("h_zkir::into_bytes_incircuit_biguint", crate::h_zkir::into_bytes_incircuit_biguint),
+    ("h_zkir::arity_vs_offcircuit_indices", crate::h_zkir::arity_vs_offcircuit_indices),
 ];
 pub fn lookup(name: &str) -> Option<H> {
     ALL.iter().find(|(n, _)| *n == name).map(|(_, f)| *f)
